@@ -216,7 +216,12 @@ def run_case(case, ctx):
 
     # what is asked of the same reader after a failed call (besides repeating it): the other header / trace accessors
     hdr_like = [o for o in ops if o[0] in ('gen_trace_header', 'get_tracefield_values', 'get_trace')]
-    probe_after = {name: [o for o in hdr_like if o[0] != name][:3] for name in ('gen_trace_header', 'get_tracefield_values', 'get_trace')}
+    def first_of(kind, load_all=None):
+        return next((o for o in hdr_like if o[0] == kind and (load_all is None or (len(o) > 2) == load_all)), None)
+    kinds_ = {'gen_trace_header': first_of('gen_trace_header', False), 'gen_trace_header-all': first_of('gen_trace_header', True),
+              'get_tracefield_values': first_of('get_tracefield_values'), 'get_trace': first_of('get_trace')}
+    probe_after = {name: [o for k_, o in kinds_.items() if o is not None and not k_.startswith(name)]
+                   for name in ('gen_trace_header', 'get_tracefield_values', 'get_trace')}
 
     def judge(op, got, faults, injected, what):
         counters['fault_runs'] += 1
@@ -247,6 +252,23 @@ def run_case(case, ctx):
                 r = SgzReader(h)
                 got = run_op_guarded(r, op)
                 judge(op, got, faults, h.injected, 'single')
+                if got[0] == 'exc' and kind == 'empty' and probe_after.get(op[0]):
+                    # the OTHER accessors first, before any successful repeat of the failed call (on a second reader, same fault)
+                    hb = handle(faults)
+                    rb = SgzReader(hb)
+                    run_op_guarded(rb, op)
+                    for op3 in probe_after[op[0]]:
+                        got3 = run_op_guarded(rb, op3)
+                        counters['probes_before_repeat'] = counters.get('probes_before_repeat', 0) + 1
+                        if got3[0] == 'exc':
+                            bad.append({'sig': '%s:%s:right-after-failed-%s:fault-free-call-raises-%s' % (backend, op3[0], op[0], got3[1]),
+                                        'detail': '%s%s failed with fault %s; the next call %s%s on the same reader (fault-free) raised %s'
+                                                  % (op[0], op[1:], faults, op3[0], op3[1:], got3[1])})
+                        elif got3[0] == 'breach' or got3 != truth_of[repr(op3)]:
+                            bad.append({'sig': '%s:%s:right-after-failed-%s:returned-wrong-data' % (backend, op3[0], op[0]),
+                                        'detail': '%s%s failed with fault %s; the next call %s%s on the same reader returned a result differing from the true one'
+                                                  % (op[0], op[1:], faults, op3[0], op3[1:])})
+                    finish(hb, rb)
                 if got[0] == 'exc' and kind in ('exc', 'empty'):
                     # the fault was transient: the same call repeated on the SAME reader now meets no fault; no range
                     # read fails on behalf of the repeat, so it must return the true result (no state left behind by the failed call)
